@@ -70,7 +70,14 @@ Section Json.
     {| qname := name; qid := 0; qfn := fun _ => QRaise |}.
 
   Definition tok_bag (r : brange) (k : bagkey N) : json :=
-    match k with BNum x => fnum x | BNan => JStr "nan" | BStr s => JStr s end.
+    match k with
+    | BNum x => fnum x | BNan => JStr "nan" | BStr s => JStr s
+    | BVec l => JArr (map (fun c => match c with Some x => fnum x | None => JStr "nan" end) l)
+    end.
+
+  (* "S", "N", "N<digits>" *)
+  Definition range_str (r : brange) : string :=
+    match r with RS => "S" | RN => "N" | RV n => String "N" (Snap.z_str (Z.of_nat n)) end.
 
   Definition key_str (k : key) : string :=
     match k with
@@ -100,7 +107,7 @@ Section Json.
                     [("entries", fnum (le s));
                      ("values", JArr (map (fun kc => JObj [("w", fnum (snd kc)); ("v", tok_bag r (fst kc))])
                                           (lv s)));
-                     ("range", JStr (match r with RS => "S" | RN => "N" end))]
+                     ("range", JStr (range_str r))]
                     "name" (nm q))
         end
     | Node k q e fx sp tm ct =>
@@ -224,6 +231,15 @@ Section Json.
     | _ => digits s 0
     end.
 
+  Definition range_of (r : string) : option brange :=
+    if String.eqb r "S" then Some RS
+    else if String.eqb r "N" then Some RN
+    else match r with
+         | String "N" ((String _ _) as ds) =>
+             match digits ds 0 with Some z => Some (RV (Z.to_nat z)) | None => None end
+         | _ => None
+         end.
+
   Definition bag_key_of (r : string) (j : json) : option (bagkey N) :=
     (* Bag.fromJsonFragment reads each value according to the declared range *)
     if String.eqb r "S" then match j with JStr s => Some (BStr s) | _ => None end
@@ -232,7 +248,18 @@ Section Json.
       | Some x => Some (if nisnan x then BNan else BNum x)
       | None => None
       end
-    else None.
+    else
+      match range_of r, j with
+      | Some (RV n), JArr comps =>
+          if Nat.eqb (List.length comps) n then
+            option_map (fun l => BVec l)
+              (fold_right (fun c acc => match jnum c, acc with
+                                        | Some x, Some l => Some ((if nisnan x then None else Some x) :: l)
+                                        | _, _ => None
+                                        end) (Some []) comps)
+          else None
+      | _, _ => None
+      end.
 
   Definition leaf_of (k : leafkind) (name : option string) (e m v : T) (vals : list (bagkey N * T)) : agg :=
     Leaf k (frozen_q name) {| le := e; l1 := m; l2 := v; lv := vals |}.
@@ -313,8 +340,7 @@ Section Json.
                         end in
                       match all_ok (map item vs) with
                       | Ok kvs =>
-                          let rng := if String.eqb r "S" then Some RS
-                                     else if String.eqb r "N" then Some RN else None in
+                          let rng := range_of r in
                           match rng with
                           | Some rr =>
                               let vals := fold_left (fun acc kw => sl_upd bag_cmp (fst kw) (fun _ => snd kw) acc)
